@@ -15,6 +15,9 @@ pub enum Piece {
     Esc(char),
     /// a multi-character trouble maker, written verbatim
     Text(String),
+    /// the literal continues on the next line: backslash, newline, then n blanks that belong to
+    /// the string
+    Splice(u8),
 }
 
 pub type Lit = Vec<Piece>;
@@ -39,6 +42,8 @@ pub enum Item {
     /// three literals over nested calls: 0 = `gc("a", gc("b", fc("c")))`, 1 = `fc("a") + gc("b", fc("c"))`,
     /// 2 = `gc("a", fc("b")) + fc("c")`
     ThreeCalls(Lit, Lit, Lit, u8),
+    /// two calls with a literal each in the initialiser of a local: `{ char ok = fc("a") && fc("b"); cr = ok; }`
+    LocalInitCalls(Lit, Lit, u8),
 }
 
 #[derive(Debug, Clone, Serialize, Deserialize)]
@@ -166,6 +171,7 @@ pub fn decode(l: &Lit) -> Vec<u8> {
             Piece::Ch(c) => v.push(*c),
             Piece::Esc(e) => v.push(ESCAPES.iter().find(|x| x.0 == *e).map(|x| x.1).unwrap_or(b'?')),
             Piece::Text(t) => v.extend_from_slice(t.as_bytes()),
+            Piece::Splice(n) => v.extend(std::iter::repeat(b' ').take(*n as usize)),
         }
     }
     v
@@ -181,13 +187,19 @@ pub fn spell(l: &Lit) -> String {
                 s.push(*e);
             }
             Piece::Text(t) => s.push_str(t),
+            Piece::Splice(n) => {
+                s.push_str("\\\n");
+                for _ in 0..*n {
+                    s.push(' ');
+                }
+            }
         }
     }
     s
 }
 
 fn interesting(l: &Lit) -> bool {
-    l.iter().any(|p| matches!(p, Piece::Esc(_) | Piece::Text(_)))
+    l.iter().any(|p| matches!(p, Piece::Esc(_) | Piece::Text(_) | Piece::Splice(_)))
 }
 
 fn gen_lit(g: &mut G, max: usize, ex: &Excl) -> Lit {
@@ -206,6 +218,7 @@ fn gen_lit(g: &mut G, max: usize, ex: &Excl) -> Lit {
                 }
                 v.push(Piece::Esc(e));
             }
+            2 if g.chance(1, 3) && i > 0 => v.push(Piece::Splice(g.below(7) as u8)),
             2 => v.push(Piece::Text(TROUBLE[g.below(TROUBLE.len())].to_string())),
             3 => {
                 // runs of backslashes, possibly right before an escaped quote
@@ -310,6 +323,7 @@ pub fn gen_case(g: &mut G, ex: &Excl) -> Case {
         stmts.push(match g.below(5) {
             0 => Item::CallArg(gen_lit(g, 10, ex)),
             1 if g.chance(1, 2) => Item::TwoCalls(gen_lit(g, 6, ex), gen_lit(g, 6, ex), g.chance(1, 2)),
+            1 if g.chance(1, 2) => Item::LocalInitCalls(gen_lit(g, 5, ex), gen_lit(g, 5, ex), g.below(3) as u8),
             1 => Item::ThreeCalls(gen_lit(g, 5, ex), gen_lit(g, 5, ex), gen_lit(g, 5, ex), g.below(3) as u8),
             2 | 3 => Item::Assign(gen_lit(g, 10, ex)),
             _ => {
@@ -343,6 +357,14 @@ fn item_text(it: &Item) -> String {
         }
         Item::CharConst(k, p) => format!("const char c{} = '{}';", k, spell(&vec![p.clone()])),
         Item::CallArg(l) => format!("ff(\"{}\");", spell(l)),
+        Item::LocalInitCalls(a, b, shape) => {
+            let op = match shape {
+                0 => "&&",
+                1 => "+",
+                _ => "|",
+            };
+            format!("{{ char ok = fc(\"{}\") {} fc(\"{}\"); cr = ok; }}", spell(a), op, spell(b))
+        }
         Item::ThreeCalls(a, b, c, shape) => match shape {
             0 => format!("cr = gc(\"{}\", gc(\"{}\", fc(\"{}\")));", spell(a), spell(b), spell(c)),
             1 => format!("cr = fc(\"{}\") + gc(\"{}\", fc(\"{}\"));", spell(a), spell(b), spell(c)),
@@ -381,7 +403,7 @@ pub fn source(c: &Case) -> String {
         s.push_str(&format!("#define {} {}\n", n, v));
     }
     s.push_str("char *pp;\nvoid ff(char *q) { }\n");
-    if c.stmts.iter().any(|i| matches!(i, Item::TwoCalls(..) | Item::ThreeCalls(..))) {
+    if c.stmts.iter().any(|i| matches!(i, Item::TwoCalls(..) | Item::ThreeCalls(..) | Item::LocalInitCalls(..))) {
         s.push_str("char cr;\nchar fc(char *q) { return 1; }\nchar gc(char *q, char c) { return c; }\n");
     }
     let has_header = !c.header.is_empty() || !c.header_macros.is_empty();
@@ -437,6 +459,7 @@ pub fn check(case: &Case, st: &mut Stats, ex: &Excl) -> Result<(), String> {
                 Item::CallArg(l) | Item::Assign(l) => hit |= bad(l),
                 Item::TwoCalls(a, b, _) => hit |= bad(a) || bad(b),
                 Item::ThreeCalls(a, b, c, _) => hit |= bad(a) || bad(b) || bad(c),
+                Item::LocalInitCalls(a, b, _) => hit |= bad(a) || bad(b),
                 _ => {}
             }
         }
@@ -558,11 +581,12 @@ pub fn check(case: &Case, st: &mut Stats, ex: &Excl) -> Result<(), String> {
                     nt = true;
                 }
             }
-            Item::TwoCalls(..) | Item::ThreeCalls(..) => {
+            Item::TwoCalls(..) | Item::ThreeCalls(..) | Item::LocalInitCalls(..) => {
                 st.count("label:several-literal-calls-in-one-expression");
                 let lits: Vec<&Lit> = match it {
                     Item::TwoCalls(a, b, _) => vec![a, b],
                     Item::ThreeCalls(a, b, c, _) => vec![a, b, c],
+                    Item::LocalInitCalls(a, b, _) => vec![a, b],
                     _ => vec![],
                 };
                 for l in lits {
